@@ -7,7 +7,7 @@
 From Coq Require Import String.
 From Coq Require Import List NArith ZArith Bool.
 From SK Require Import lib.LGraph lib.C01_GraphLemmas model.C01_Model model.C02_Model model.C01_Opts model.C01_String model.C01_Renum model.C01_Attrs model.C01_CleanWc model.C01_Rsmi model.C01_Nbrs model.C01_Rewrite model.C01_Conv model.C01_G2M model.C01_DecRaw model.C01_HBal model.C01_M2GIdx model.C01_Prem model.C01_Builders
-  proof.C01_Proof proof.C01_OptsProof proof.C01_StringProof proof.C01_StringHyd proof.C01_StringPipe proof.C01_StringEH proof.C01_StringRenum proof.C01_StringHydExt proof.C01_RenumCentre proof.C01_RenumWrite proof.C01_StringEHwf proof.C01_AttrsProof proof.C01_StringPipeH proof.C01_CleanWcProof proof.C01_RsmiProof proof.C01_NbrsProof proof.C01_RewriteProof proof.C01_ConvProof proof.C01_G2MProof proof.C01_WriteExt proof.C01_RewriteCheck proof.C01_DecRawProof proof.C01_HBalProof proof.C01_HBalString proof.C01_HBalEH proof.C01_M2GIndex proof.C01_ReadWrite proof.C01_HBalW proof.C01_PremProof proof.C01_Capstone proof.C01_ReverseWrite proof.C01_ExtOpts proof.C01_BuildersProof proof.C01_LightProof proof.C01_ZeroOrder.
+  proof.C01_Proof proof.C01_OptsProof proof.C01_StringProof proof.C01_StringHyd proof.C01_StringPipe proof.C01_StringEH proof.C01_StringRenum proof.C01_StringHydExt proof.C01_RenumCentre proof.C01_RenumWrite proof.C01_StringEHwf proof.C01_AttrsProof proof.C01_StringPipeH proof.C01_CleanWcProof proof.C01_RsmiProof proof.C01_NbrsProof proof.C01_RewriteProof proof.C01_ConvProof proof.C01_G2MProof proof.C01_WriteExt proof.C01_RewriteCheck proof.C01_DecRawProof proof.C01_HBalProof proof.C01_HBalString proof.C01_HBalEH proof.C01_M2GIndex proof.C01_ReadWrite proof.C01_HBalW proof.C01_PremProof proof.C01_Capstone proof.C01_ReverseWrite proof.C01_ExtOpts proof.C01_BuildersProof proof.C01_LightProof proof.C01_ZeroOrder proof.C01_M2GGeneral proof.C01_LightGen.
 Import ListNotations.
 Local Open Scope Z_scope.
 
@@ -868,3 +868,26 @@ Theorem C01_order_zero_refuted :
   adj (fst (its_decompose (its_construct ex_z ex_z))) 1%N 2%N = None /\ adj ex_z 1%N 2%N = Some 0.
 Proof. exact order_zero_refuted. Qed.
 Print Assumptions C01_order_zero_refuted.
+
+(** 58. MolToGraph.transform in closed form for EVERY flag combination the code accepts: if the ids of the atoms that are
+        kept ([kept_atom]: all atoms, or the mapped ones under drop_non_aam) are pairwise distinct - automatic for the default
+        flags (theorem 47), "distinct maps" for the flags of rsmi_to_graph (theorem 11), and the condition under which a map
+        number never collides with an index + 1 for (drop_non_aam=False, use_index_as_atom_map=True) - and no two bonds join
+        the same pair of ids, the result is exactly the kept atoms keyed by their id in atom order and the bonds between kept
+        atoms in bond order *)
+Theorem C01_mol_to_graph_general : forall (drop use : bool) (m : rmol), drop && negb use = false ->
+  NoDup (map fst (gen_nodes drop use m)) -> simple (gen_bonds drop use m) ->
+  mol_to_graph drop use m = Some (LG (gen_nodes drop use m) (gen_bonds drop use m)).
+Proof. exact mol_to_graph_general. Qed.
+Print Assumptions C01_mol_to_graph_general.
+
+(** 59. the light-weight builder for EVERY flag combination the classmethod accepts: under the hypotheses of theorem 58 (ids of
+        the kept atoms pairwise distinct, no two bonds on one pair of ids) MolToGraph.mol_to_graph(light_weight=True) and
+        transform agree - both return a graph, with the same labels (no attribute-less node survives) and the same bonds.
+        Theorem 56 is the instance drop_non_aam = use_index_as_atom_map = True. *)
+Theorem C01_light_builder_general : forall (m : rmol) (drop use : bool),
+  NoDup (map fst (gen_nodes drop use m)) -> simple (gen_bonds drop use m) -> drop && negb use = false ->
+  exists g g', mol_to_graph drop use m = Some g /\ light_graph drop use m = Some g' /\
+    (forall n, label g' n = option_map Some (label g n)) /\ (forall u v, adj g' u v = adj g u v).
+Proof. exact light_is_transform_general. Qed.
+Print Assumptions C01_light_builder_general.
